@@ -93,13 +93,21 @@ def main():
             hist = (hist + '; ' if hist else '') + 'on repository commit %s: %s' % (rv['repo_commit'], {
                 'NEUTRAL': 'no longer breaks the property (its own demo passes with the change: a later fix made it harmless), not caught any more',
                 'STALE': 'patch no longer applies', 'MISSED': 'MISSED'}[rv['result']])
-        rows.append((name, m['property'], m.get('detected'), m.get('also_detected_by', ''), first[:220], hist))
+        det = m.get('detected')
+        if rv:
+            det = 'neutral' if rv['result'] == 'NEUTRAL' else rv['result'] == 'caught'
+        if not det and m.get('also_detected_by'):
+            hist = (hist + '; ' if hist else '') + 'caught by ' + m['also_detected_by']
+        rows.append((name, m['property'], det, m.get('also_detected_by', ''), first[:220], hist))
     out = ['# Seeded changes (written by independent sub-agents; each confirmed: suite passes with it, demo fails with it / passes without)',
            '', '| seed | property | caught by its check (quick tier) | change (first line of the author\'s notes) | history |', '|---|---|---|---|---|']
     for name, prop, det, also, first, hist in rows:
-        out.append('| %s | %s | %s | %s | %s |' % (name, prop, 'yes' if det else 'NO', first.replace('|', '/'), hist or 'caught at first attempt'))
+        out.append('| %s | %s | %s | %s | %s |' % (name, prop, 'neutralised' if det == 'neutral' else ('yes' if det else 'NO'),
+                                                first.replace('|', '/'), hist or 'caught at first attempt'))
     open(os.path.join(HOME, 'seeded', 'INDEX.md'), 'w').write('\n'.join(out) + '\n')
-    print('%d seeds, %d caught' % (len(rows), sum(1 for r in rows if r[2])))
+    print('%d seeds, %d caught by their own check, %d neutralised by later fixes, %d caught by a neighbouring check only' % (
+        len(rows), sum(1 for r in rows if r[2] is True), sum(1 for r in rows if r[2] == 'neutral'),
+        sum(1 for r in rows if not r[2])))
 
 
 if __name__ == '__main__':
